@@ -74,6 +74,14 @@ def _mixed_games(shape, count=120):
     import random
     rng = random.Random(11)
     out = [{'teams': [[(30.0 / k, 8.0 / k ** 0.5)] * k if i == 0 else [((30.0 if i == 1 else 28.0 - 0.5 * i) / k, 0.5 / k ** 0.5)] * k for i, k in enumerate(shape)]}]
+    # nearly level teams: one team ahead of an otherwise identical one by a gap far below any sensible tolerance but not zero
+    # (a tie detection that is not exact equality of the returned probabilities shows only here)
+    for eps in (1e-6, 1e-8, 1e-10, 1e-12):
+        for lead in range(len(shape)):
+            out.append({'teams': [[((25.0 + (eps if i == lead else 0.0)) / k, 8.0 / k ** 0.5)] + [(25.0 / k, 8.0 / k ** 0.5)] * (k - 1)
+                                  for i, k in enumerate(shape)]})
+            out.append({'teams': [[((25.0 + (eps if i == lead else 0.0) - (3.0 if i == (lead + 1) % len(shape) and len(shape) > 2 else 0.0)) / k,
+                                    8.0 / k ** 0.5)] + [(25.0 / k, 8.0 / k ** 0.5)] * (k - 1) for i, k in enumerate(shape)]})
     for _ in range(count):
         g = []
         for k in shape:
